@@ -182,4 +182,36 @@ def t_glob(data: bytes):
     return ("*" in glob or "\\" in glob) and real, None
 
 
-TARGETS = {"toml": t_toml, "dep5": t_dep5, "content": t_content, "glob": t_glob}
+def t_ignore(data: bytes):
+    """Arbitrary text -> extract(text) must equal extract(reference_filter(text)) (C12's oracle).  Texts on which
+    filtering is not idempotent (removing a block splices a new marker together) are outside the oracle's reach."""
+    from boolean.boolean import ParseError
+    from license_expression import ExpressionError
+    from reuse.extract import extract_reuse_info
+
+    from .ref.ignoreblocks import END, START, ref_filter
+
+    text = _decode(data)
+    if text is None or START not in text:
+        return False, None
+    filtered = ref_filter(text)
+    if ref_filter(filtered) != filtered:
+        return False, None
+
+    def ex(s):
+        try:
+            info = extract_reuse_info(s)
+        except (ExpressionError, ParseError) as e:
+            return ("error", type(e).__name__)
+        return ("ok", sorted(str(x) for x in info.spdx_expressions), sorted(info.copyright_lines), sorted(info.contributor_lines))
+
+    try:
+        got, want = ex(text), ex(filtered)
+    except Exception as e:  # noqa: BLE001
+        return True, f"extract_reuse_info raised {type(e).__name__}: {e}"
+    if got != want:
+        return True, f"extract(text)={got!r} but extract(reference_filter(text))={want!r}"
+    return (got != ("ok", [], [], []) or END in text) and ("SPDX-" in text or "opyright" in text), None
+
+
+TARGETS = {"toml": t_toml, "dep5": t_dep5, "content": t_content, "glob": t_glob, "ignore": t_ignore}
